@@ -63,6 +63,8 @@ def run(ctx):
 
     r6 = ctx.rule("C08.R6", "END-TO-END/HISTORY: hypotest -> create_calculator -> AsymptoticCalculator (constructor, teststatistic, distributions, pvalues, expected_pvalues) -> generate_asimov_data interpreted as ONE composition, four calls in one process (qtilde on both branches, q0, q; other mu and data): the statistic is evaluated at the tested mu on this call's data and on the Asimov data of the mu=0 (q0: mu=1) conditional fit to this call's data, every fit gets this call's model/start values/bounds/fixed flags, and observed value, tail probabilities, median and 5-point band are the asymptotic formulae of these two numbers", "E2E", floor=4)
     _hypotest_end_to_end(ctx, r6, repo)
+    r7 = ctx.rule("C08.R7", "POI-VERBATIM: whether a model HAS a parameter of interest is what the prerequisite check of hypotest decides on; the public model factories (pyhf.simplemodels.*) interpreted with Model as a recorder hand the caller's poi_name to Model verbatim -- None and '' (the documented POI-less requests) included, the documented default when it is left out -- together with batch_size and validate", "FWD", floor=2)
+    _factories_forward_poi(ctx, r7, repo)
     # ---------------- R1 / R5 by interpretation
     CLsb_o, CLb_o, CLs_o = Poly.atom("CLsb_obs"), Poly.atom("CLb_obs"), Poly.atom("CLs_obs")
     CLsb_e = [Poly.atom(f"CLsb_exp{i}") for i in range(5)]
@@ -652,3 +654,51 @@ def toy_history_standalone(ctx, rid, repo):
         ctx.unrecognised(rid, hyp, "toy-based hypotest history", f"world not buildable: {type(e).__name__}: {e}")
         return
     toy_history(ctx, rid, w, hyp, pdf, at, c)
+
+
+def _factories_forward_poi(ctx, rid, repo):
+    """pyhf.simplemodels: every public function that constructs a Model, interpreted with a recording Model."""
+    from ..objmodel import World
+    SM = "src/pyhf/simplemodels.py"
+    mod = repo.module(SM)
+    ctx.touch_file(mod.relpath)
+    errs = (Undecided, KeyError, TypeError, ValueError, IndexError, AttributeError)
+    for q, f in sorted(mod.funcs.items()):
+        if "." in q or q.startswith("_"):
+            continue
+        params = A.params_of(f.node)
+        if "poi_name" not in params or not any(A.call_attr(c_) == "Model" or A.unparse(c_.func) == "Model" for c_ in A.calls_in(f.node)):
+            continue
+        ctx.touch(f)
+        dflt = A.param_defaults(f.node).get("poi_name")
+        dflt_v = A.const_value(dflt) if dflt is not None and A.is_const(dflt) else "<no literal default>"
+        bad = None
+        try:
+            for lab, given in (("poi_name=None (a POI-less model)", None), ("poi_name='' (a POI-less model)", ""), ("poi_name='strength'", "strength"), ("poi_name left out", "<omitted>")):
+                calls = []
+                w = World({"__strict__": True, "Model": lambda a, k, calls=calls: (calls.append((a, dict(k))) or Obj("MODEL"))}, module_env={"log": Obj("log")})
+                w.add_func(f)
+                kw = {p_: [Poly.atom(f"{p_}0"), Poly.atom(f"{p_}1")] for p_ in params if p_ not in ("batch_size", "validate", "poi_name")}
+                kw.update({"batch_size": Obj("BATCH"), "validate": Obj("VALIDATE")} if {"batch_size", "validate"} <= set(params) else {})
+                if given != "<omitted>":
+                    kw["poi_name"] = given
+                w.call_func(f, [], kw)
+                if len(calls) != 1:
+                    bad = f"{lab}: Model is constructed {len(calls)} times"
+                    break
+                a, k = calls[0]
+                want = dflt_v if given == "<omitted>" else given
+                got = k.get("poi_name", "<not passed>")
+                if got != want or (got is None) != (want is None):
+                    bad = f"{lab}: Model is built with poi_name={got!r}; the caller asked for {want!r} -- a request for a model WITHOUT a parameter of interest comes back with one, and hypotest, instead of refusing (UnspecifiedPOI), tests a parameter the caller never declared as POI"
+                    break
+                if "batch_size" in kw and (k.get("batch_size") is not kw["batch_size"] or k.get("validate") is not kw["validate"]):
+                    bad = f"{lab}: batch_size / validate do not reach Model as given"
+                    break
+        except errs as e:
+            ctx.unrecognised(rid, f, f"{q} [recording Model]", f"not interpretable: {type(e).__name__}: {e}")
+            continue
+        if bad:
+            ctx.violated(rid, f, f"{q}: poi_name handed to Model", bad, expected="Model(spec, batch_size=batch_size, validate=validate, poi_name=<as given>)", found=bad, node=f.node)
+        else:
+            ctx.holds(rid, f"{SM}::{q} [None, '', a name, left out]", f"poi_name reaches Model verbatim (default {dflt_v!r}); batch_size and validate as given")
